@@ -76,7 +76,8 @@ BigCtors == [default_boxed |-> [pat |-> "const", c |-> 0],
              boxed_from_iter |-> [pat |-> "mod1000", c |-> 0],
              try_boxed_from_iter |-> [pat |-> "mod1000", c |-> 0],
              try_from_vec |-> [pat |-> "mod1000", c |-> 0],
-             boxed_map |-> [pat |-> "const", c |-> 3]]
+             boxed_map |-> [pat |-> "const", c |-> 3],
+             box_arr_list |-> [pat |-> "mod1000", c |-> 0]]      \* (32 x 16 KiB only: a literal list)
 ShapeKey(s) == CASE s = "1m_u64" -> "s1m_u64" [] s = "256x16k" -> "s256x16k" [] s = "64x16k" -> "s64x16k" [] s = "32x16k" -> "s32x16k" [] OTHER -> "none"
 BigSpecOf(ctor, shape) == LET sh == BigShapes[ShapeKey(shape)] ct == BigCtors[ctor] IN
     [n |-> sh.n, pat |-> ct.pat, c |-> ct.c, bytes |-> sh.n * sh.esz]
@@ -89,6 +90,11 @@ BigOK(r) ==
        /\ r.n = s.n /\ r.bytes = s.bytes
        /\ r.first = ElemAt(s, 0) /\ r.mid = ElemAt(s, s.n \div 2) /\ r.last = ElemAt(s, s.n - 1)
        /\ r.sum = SumOf(s)
+
+\* consumers of a large boxed array (fold, by-value iteration): they must get through it, whatever its size
+BigFoldOK(r) ==
+    /\ r.op \in {"boxed_fold", "boxed_into_iter"} /\ ShapeKey(r.shape) \in DOMAIN BigShapes
+    /\ LET sh == BigShapes[ShapeKey(r.shape)] IN r.n = sh.n /\ r.sum = SumOf([n |-> sh.n, pat |-> "mod1000", c |-> 0])
 
 HeapBackedKinds == {"box", "vec", "bslice"}
 NeedsBlock(v) == cfg.rec /\ v.kind \in HeapBackedKinds /\ Len(v.items) > 0 /\ ~Anonymous
